@@ -140,6 +140,29 @@ def run(index, tier="quick", seed=0) -> Result:
             res.ok("FRAME-1", k, sample={"site": k, "uses": [s[0] for s in sites]})
     from ..parallel import report as _copy1
     _copy1(res, index, lambda f: f['cls'] in ('Polygon', 'ConvexPolygon') and f['top'] in ('signed_area', 'area', 'perimeter', 'centroid', 'planar_moments_inertia', 'inertia_tensor', '_reorder_verts') or f['func'] in ('_align_points_by_normal', 'translate_inertia_tensor', 'rotate_order2_tensor'))
+    # ---------------------------------------------------------------- FRAME-0 the alignment helper applies the forward rotation
+    pmod = index.module("coxeter.shapes.polygon")
+    al = pmod.functions.get("_align_points_by_normal")
+    if al is None:
+        raise AnalysisError("anchor vanished: _align_points_by_normal")
+    it = Interp(index)
+    r = it.run_entry(al, None)
+    dots = [e for e in r["events"] if e.type == "dotcall" and e.func is al]
+    fwd = []
+    for e in dots:
+        if e.right is not None and "orth" in e.right.tags:
+            fwd.append("transposed" in e.right.tags)       # np.dot(points, R.T) applies R to each row
+        elif e.left is not None and "orth" in e.left.tags:
+            fwd.append("transposed" not in e.left.tags)
+    rv = r["result"]
+    returns_rot = rv is not None and rv.items is not None and len(rv.items) == 2 and "orth" in rv.items[1].tags and "transposed" not in rv.items[1].tags
+    if fwd and all(fwd) and returns_rot:
+        res.ok("FRAME-0", "_align_points_by_normal")
+    elif not fwd:
+        res.not_in_fragment.append("FRAME-0: application of the kabsch rotation not found")
+    else:
+        res.bad("FRAME-0", "_align_points_by_normal", f"{al.file}:{al.lineno}", "_align_points_by_normal must rotate the row vectors with np.dot(points, rotation.T) "
+                "and return that same rotation: callers undo it with the transpose")
     # ---------------------------------------------------------------- PAR of the parallel-axis mass
     fn = index.effective_prop(P, "inertia_tensor").getter
     it = Interp(index)
